@@ -462,4 +462,31 @@ theorem endsWith_append (stem ext suf : List Char) (h : endsWith ext suf = true)
   rw [List.isSuffixOf_iff_suffix] at *
   exact h.trans (List.suffix_append stem ext)
 
+/-! ### the ASDF layer is idempotent on weights -/
+
+theorem pyScalar_fix (t : Tree) : pyScalar t = t ∨ (pyScalar t).isNpScalar = false := by
+  unfold pyScalar
+  split
+  · next dt v =>
+    by_cases h1 : dt.startsWith "f" = true
+    · right; simp [h1, Tree.isNpScalar]
+    · by_cases h2 : (dt.startsWith "i" || dt.startsWith "u") = true
+      · right; simp [h1, h2, Tree.isNpScalar]
+      · left; simp [h1, h2]
+  · left; rfl
+
+theorem pyScalar_of_not_npScalar (t : Tree) (h : t.isNpScalar = false) : pyScalar t = t := by
+  unfold pyScalar
+  split
+  · simp [Tree.isNpScalar] at h
+  · rfl
+
+theorem pyScalar_idem (t : Tree) : pyScalar (pyScalar t) = pyScalar t := by
+  rcases pyScalar_fix t with h | h
+  · rw [h, h]
+  · exact pyScalar_of_not_npScalar _ h
+
+theorem pyWeights_idem (g : Grid) : g.pyWeights.pyWeights = g.pyWeights := by
+  simp [Grid.pyWeights, pyScalar_idem]
+
 end HcipyVerif.Serial
